@@ -33,7 +33,7 @@ def run(ctx):
     else:
         n = 700 if quick else 12000
         for i in range(n):
-            fam = rng.choice(["int", "int", "dyadic", "generic", "wide"])
+            fam = rng.choice(["int", "int", "dyadic", "generic", "wide", "mixed", "mixed"])
             par = rng.randint(0, 1)
             depth = rng.choice([0, 1, 1, 2, 2, 3, 3])
             bad = 0.0 if rng.random() < 0.93 else 0.5
@@ -51,8 +51,29 @@ def run(ctx):
                           ["sub", ["mul", p, z], ["neg", p]], ["add", ["scale", 0.5 if fam != "int" else 2, z], p],
                           ["trunc", z, par, par + 4], ["posh", z], ["negh", z]):
                     cases.append({"e": e, "fam": fam, "keys": [0, 1, -1, 2], "malformed": False, "directed": "zero"})
+        # directed: literals with exactly-zero leading / trailing / interior coefficients (stored, not stripped), for point evaluation
+        for fam in ("int", "generic"):
+            for pat in ([0, 1, 1], [1, 1, 0], [0, 0, 1, 1], [0, 1, 0, 1, 0], [1, 0, 0], [0, 1], [0, 0, 0]):
+                for dmin in (-5, -2, 0, 3):
+                    v = [0.0 if b == 0 else (float(rng.randint(1, 9)) if fam == "int" else rng.uniform(-2, 2)) for b in pat]
+                    cases.append({"e": ["lit", dmin, v], "fam": fam, "keys": [dmin, dmin + 2, 0, 1], "malformed": False, "directed": "stored zeros"})
+        # directed: one non-integer float term plus an integer-typed polynomial, either order, term inside / outside the stored range
+        for k in range(6 if quick else 40):
+            par = rng.randint(0, 1)
+            big = ["lit", 2 * rng.randint(-3, 0) + par, [rng.randint(-9, 9) or 1 for _ in range(rng.randint(2, 6))]]
+            one = ["lit", 2 * rng.randint(-4, 4) + par, [rng.choice([0.5, -0.25, 1.75, rng.uniform(-2, 2)])]]
+            for e in (["add", one, big], ["add", big, one], ["sub", one, big], ["sub", big, one], ["mul", one, big]):
+                cases.append({"e": e, "fam": "mixed", "keys": [one[1], big[1], 0, 1], "malformed": False, "directed": "float term + integer polynomial"})
     # ---- run both sides
-    impl_in = [{"fn": "pexpr", "e": exprs.p_json(c["e"]), "keys": c["keys"]} for c in cases]
+    ANG = [0.0, 1.0471975511965976, -2.3, 0.7, 3.141592653589793]
+    for c in cases:
+        c["angles"] = ANG[:3] + [rng.uniform(-3.2, 3.2)]
+    # rounding small coefficients to zero, on the result object of the history, after other read-outs (every third case)
+    for i, c in enumerate(cases):
+        if i % 3 == 0 and not c["malformed"]:
+            c["round"] = rng.choice(["default", 0.5, 1.0, 3.0, 1e-3])
+    impl_in = [dict({"fn": "pexpr", "e": exprs.p_json(c["e"]), "keys": c["keys"], "angles": [hexf(a) for a in c["angles"]]},
+                    **({"round_zeros": (c["round"] if c["round"] == "default" else hexf(c["round"]))} if "round" in c else {})) for c in cases]
     impl = run_impl(impl_in)
     lines = []
     for c in cases:
@@ -94,6 +115,44 @@ def run(ctx):
             a, b = c["e"][2], c["e"][3]
             if not (str(ro["dmin"]) == m[0] and len(ro["coefs"]) == len(m[2])):
                 ctx.fail("history", c, f"truncate to [{a},{b}] returned stored range dmin={ro['dmin']} len={len(ro['coefs'])}, the exact model has dmin={m[0]} len={len(m[2])}")
+                continue
+        # point evaluation f(e^{i t}) = sum_k c_k (cos k t + i sin k t) from the exact coefficients of the model
+        evs = ro.get("eval")
+        if evs is None or len(evs) != len(c["angles"]):
+            ctx.fail("history", c, "eval(angles) returned %s values for %d angles" % (None if evs is None else len(evs), len(c["angles"])))
+            continue
+        bad_ev = None
+        for t, ev in zip(c["angles"], evs):
+            zr = sum(float(v) * math.cos(k * t) for k, v in dm.items())
+            zi = sum(float(v) * math.sin(k * t) for k, v in dm.items())
+            got = complex(float.fromhex(ev[1]), float.fromhex(ev[2])) if isinstance(ev, list) else complex(float.fromhex(ev), 0.0)
+            budget = float(64 * (nop + 2) * U * sum(dabs.values())) + sum(abs(float(v)) * (abs(k * t) + 8) for k, v in dm.items()) * 2.3e-16 + 1e-300
+            if not (abs(got - complex(zr, zi)) <= budget):
+                bad_ev = "eval(%r) = %r but the polynomial takes the value %r there (|diff| %.3e > budget %.3e)" % (t, got, complex(zr, zi), abs(got - complex(zr, zi)), budget)
+                break
+        if bad_ev:
+            ctx.fail("history", c, bad_ev)
+            continue
+        # round_zeros(thresh): exactly the coefficients of magnitude below the threshold become 0, nothing else changes,
+        # and norm / eval read afterwards are those of the rounded polynomial
+        if "round" in c:
+            th = 1e-5 if c["round"] == "default" else c["round"]
+            b4 = [fr(x) for x in ro["rounded_from"]]
+            af = [fr(x) for x in ro["rounded"]]
+            want = [Fraction(0) if abs(x) < fr(th) else x for x in b4]
+            if af != want or ro["rounded_dmin"] != ro["dmin"]:
+                ctx.fail("history", c, "round_zeros(%r) turned coefficients %s into %s (expected %s)" % (c["round"], [float(x) for x in b4][:8], [float(x) for x in af][:8], [float(x) for x in want][:8]))
+                continue
+            n2r = sum(x * x for x in af)
+            nr = fr(ro["rounded_norm"])
+            if abs(nr * nr - n2r) > Fraction(1, 10 ** 9) * max(n2r, Fraction(1, 10 ** 300)):
+                ctx.fail("history", c, "after round_zeros(%r) norm**2 = %r but the rounded coefficients have sum of squares %r" % (c["round"], float(nr * nr), float(n2r)))
+                continue
+            e0 = ro["rounded_eval0"][0]
+            v0 = complex(float.fromhex(e0[1]), float.fromhex(e0[2])) if isinstance(e0, list) else complex(float.fromhex(e0), 0)
+            s0 = float(sum(af))
+            if not (abs(v0 - s0) <= 1e-9 * (1 + sum(abs(float(x)) for x in af))):
+                ctx.fail("history", c, "after round_zeros(%r) eval(0) = %r but the rounded coefficients sum to %r" % (c["round"], v0, s0))
                 continue
         # coefficient look-up and 2-norm
         gets = [Fraction(x) for x in minfo[4]]
